@@ -6,9 +6,11 @@ C26  Test outcomes are parsed and summarised faithfully.
 Proved here (for all lists of cases / runs, no bound): the summary counters partition the cases, the
 target verdict `AllSucceeded` is equivalent to "no failed or errored case" and, through the flake loop,
 to "every case that ran has a successful or skipped execution in one of the at most `flakiness` runs".
-Violated as stated, with witnesses: the `flakes` counter also counts cases that never failed; `<testsuite>`
-nested in `<testsuite>` loses its cases; bare `<testcase>` elements lose their names; a Go test without a
-result line is turned into a pass.
+Four defects found by this check were repaired in /repo (`fix:` commits): the `flakes` counter counted
+cases that never failed; `<testsuite>` nested in `<testsuite>` lost its cases; bare `<testcase>` elements
+lost their names; a Go test without a result line was turned into a pass.  The theorems below are stated
+for the repaired code (the facts `flakyCond`, `nestedSuiteField`, `bareCaseFields`, `goSets` say so); the old
+witnesses are kept as statements about the OLD fact values.
 Parsing proper (`encoding/xml`, go-junit-report) is validated by correspondence only.
 -/
 namespace PlzVerif.Props.C26
@@ -23,7 +25,7 @@ def FactsOK : Bool :=
   C26.errorsCond == "C.Skip() == nil && C.Success() == nil && len(C.Errors()) > 0" &&
   C26.failuresCond == "C.Skip() == nil && C.Success() == nil && len(C.Errors()) == 0 && len(C.Failures()) > 0" &&
   C26.skipsCond == "C.Skip() != nil" &&
-  C26.flakyCond == "C.Success() != nil && len(C.Executions) > 1" &&
+  C26.flakyCond == "(len(C.Failures()) > 0 || len(C.Errors()) > 0) && C.Skip() == nil && C.Success() != nil" &&
   C26.allSucceededCond == "C.Skip() == nil && C.Success() == nil => return false; return true" &&
   C26.testsExpr == "return len(testSuite.TestCases)" &&
   C26.matchCond == "OLD.ClassName == NEW.ClassName && OLD.Name == NEW.Name" &&
@@ -40,32 +42,47 @@ def FactsOK : Bool :=
   C26.caseTags == ["Error=error", "Failure=failure", "FlakyError=flakyError", "FlakyFailure=flakyFailure",
                    "RerunError=rerunError", "RerunFailure=rerunFailure", "Skipped=skipped"] &&
   C26.xmlPrefixes == ["<?xml", "<test"] &&
-  C26.goSets.contains ("Fail", "Failure") && C26.goSets.contains ("Skip", "Skip") && C26.goSets.contains ("Pass", "")
+  C26.goSets.contains ("Fail", "Failure") && C26.goSets.contains ("Skip", "Skip") && C26.goSets.contains ("Pass", "") &&
+  -- the repaired conversions: an unfinished Go test is an error, nested suites are decoded, bare cases keep their names
+  (C26.goSets.contains ("default", "Error") || C26.goSets.contains ("Unknown", "Error")) &&
+  C26.nestedSuiteField && C26.bareCaseFields == ["ClassName", "Name"]
 
 /-- Obligation a code change can break. -/
 theorem C26_facts_ok : FactsOK = true := by decide
 
 /-! ### Every case is counted in exactly one bucket -/
 
-/-- passed / errored / failed / skipped / flaky-only (succeeded after failing or erroring, never skipped)
-    are mutually exclusive and exhaustive, for every case. -/
+/-- The `flakes` counter as found in the source of this run. -/
+abbrev isFlakyPass := isFlakyPassWith (flakyStrictOf C26.flakyCond)
+abbrev flakyPasses := flakyPassesWith (flakyStrictOf C26.flakyCond)
+
+theorem flaky_strict : flakyStrictOf C26.flakyCond = true := by decide
+
+/-- passed / errored / failed / skipped / flake are mutually exclusive and exhaustive, for every case:
+    exactly one of the five displayed counters counts it. -/
 theorem C26_partition_case (c : Case) :
-    b2n (isPass c) + b2n (isError c) + b2n (isFailure c) + b2n (isSkip c) + b2n (isFlakyOnly c) = 1 :=
-  bucket_sum_one c
+    b2n (isPass c) + b2n (isError c) + b2n (isFailure c) + b2n (isSkip c) + b2n (isFlakyPass c) = 1 := by
+  have h := bucket_sum_one c
+  unfold isFlakyPass isFlakyPassWith
+  rw [flaky_strict]
+  exact h
 
-/-- "N tests run" is the sum of the five buckets. -/
+/-- "N tests run" is the sum of the five displayed counters. -/
 theorem C26_partition (l : List Case) :
-    tests l = passes l + errors l + failures l + skips l + flakyOnly l :=
-  tests_eq_buckets l
+    tests l = passes l + errors l + failures l + skips l + flakyPasses l := by
+  have h := tests_eq_buckets l
+  have e : flakyPasses l = flakyOnly l := by
+    unfold flakyPasses flakyPassesWith flakyOnly
+    rw [flaky_strict]
+    rfl
+  rw [e]; exact h
 
-/-- A case that is flaky-only is reported by the `flakes` counter … -/
-theorem C26_flaky_only_counted (c : Case) (h : isFlakyOnly c = true) : isFlakyPass c = true := by
-  unfold isFlakyOnly at h
-  unfold isFlakyPass
-  simp only [Bool.and_eq_true, Bool.or_eq_true, Bool.not_eq_true'] at h
+/-- A flake is a case that passed only after a failing or erroring execution; it has at least two executions. -/
+theorem C26_flake_has_retry (c : Case) (h : isFlakyPass c = true) : c.execs.length > 1 := by
+  unfold isFlakyPass isFlakyPassWith at h
+  rw [flaky_strict] at h
+  simp only [if_true, Bool.and_eq_true, Bool.or_eq_true, Bool.not_eq_true'] at h
   obtain ⟨⟨hs, _⟩, hfe⟩ := h
-  simp only [hs, Bool.true_and, decide_eq_true_eq]
-  -- a successful execution and a failing/erroring one are different executions
   unfold Case.hasSuccess at hs
   unfold Case.hasFailure Case.hasError at hfe
   match hc : c.execs with
@@ -76,31 +93,16 @@ theorem C26_flaky_only_counted (c : Case) (h : isFlakyOnly c = true) : isFlakyPa
     rcases hfe with h | h <;> simp [h] at hs
   | _ :: _ :: _ => simp
 
-/-- VIOLATED: … but the `flakes` counter (`FlakyPasses`) is not the flaky-only bucket: a case that
-    passed in two runs without ever failing is both "passed" and a "flake" (this is what every clean case
-    looks like after `doFlakeRun` needed a second run for some other case). -/
-theorem C26_witness_two_buckets :
-    ∃ c : Case, isPass c = true ∧ isFlakyPass c = true ∧ isFlakyOnly c = false :=
+/-- The counter before the repair (`Success() != nil && len(Executions) > 1`) did not partition: a case that
+    passed in two runs without ever failing was both "passed" and a "flake" — every clean case looked like
+    that after `doFlakeRun` needed a second run for some other case.  (Statement about the OLD condition.) -/
+theorem C26_old_flaky_counter_overlapped :
+    ∃ c : Case, isPass c = true ∧ isFlakyPassWith false c = true ∧ isFlakyOnly c = false :=
   ⟨⟨"", "a", [Exec.pass, Exec.pass]⟩, by decide, by decide, by decide⟩
 
-/-- Stated with the five displayed counters the partition therefore fails. -/
-theorem C26_witness_counters_overlap :
-    ∃ l : List Case, tests l ≠ passes l + errors l + failures l + skips l + flakyPasses l :=
+theorem C26_old_counters_did_not_partition :
+    ∃ l : List Case, tests l ≠ passes l + errors l + failures l + skips l + flakyPassesWith false l :=
   ⟨[⟨"", "a", [Exec.pass, Exec.pass]⟩], by decide⟩
-
-/-- Where the displayed counters do partition: when no case that never failed/errored (or was skipped) has more
-    than one execution — e.g. every freshly parsed result file, or a target with flakiness 1. -/
-theorem C26_partition_partial (l : List Case)
-    (h : ∀ c ∈ l, isFlakyPass c = true → isFlakyOnly c = true) :
-    tests l = passes l + errors l + failures l + skips l + flakyPasses l := by
-  have : flakyPasses l = flakyOnly l := by
-    unfold flakyPasses flakyOnly
-    apply List.countP_congr
-    intro c hc
-    constructor
-    · exact h c hc
-    · exact C26_flaky_only_counted c
-  rw [this]; exact C26_partition l
 
 /-! ### The verdict -/
 
@@ -202,16 +204,33 @@ theorem C26_nested_supported_all_cases (cs : List XCase) (inner : List XCase) :
     (XSuite.mk cs [XSuite.mk inner []]).cases true = cs.map XCase.toCase ++ inner.map XCase.toCase := by
   simp [XSuite.cases, XSuite.cases.casesList]
 
-/-- VIOLATED (as the struct is declared today, `C26.nestedSuiteField = false`): the cases of a
-    `<testsuite>` nested inside a `<testsuite>` disappear, here a failing one, and the verdict turns green. -/
-theorem C26_witness_nested_suite_dropped :
+/-- The code of this run decodes nested suites: every case of the outer and of the inner suites is reported. -/
+theorem C26_nested_cases_reported (cs : List XCase) (inner : List (List XCase)) :
+    (XSuite.mk cs (inner.map fun s => XSuite.mk s [])).cases C26.nestedSuiteField
+      = cs.map XCase.toCase ++ (inner.map fun s => s.map XCase.toCase).flatten := by
+  have hf : C26.nestedSuiteField = true := by decide
+  rw [hf]
+  simp only [XSuite.cases, if_true]
+  congr 1
+  induction inner with
+  | nil => rfl
+  | cons s rest ih => simp [XSuite.cases.casesList, XSuite.cases, ih]
+
+/-- Before the repair (`nestedSuiteField = false`) the cases of a `<testsuite>` nested inside a `<testsuite>`
+    disappeared, here a failing one, and the verdict turned green.  (Statement about the OLD fact value.) -/
+theorem C26_old_nested_suite_dropped :
     ∃ s : XSuite, allSucceeded (s.cases false) = true ∧ allSucceeded (s.cases true) = false :=
   ⟨XSuite.mk [⟨"c", "a", false, false, false, 0, 0, 0, 0⟩] [XSuite.mk [⟨"c", "b", true, false, false, 0, 0, 0, 0⟩] []],
    by decide, by decide⟩
 
-/-- VIOLATED: a bare top-level `<testcase>` keeps its outcome but loses its name and class name
-    (`C26.bareCaseFields = []`: the synthetic `core.TestCase{}` is never given them). -/
-theorem C26_witness_bare_names_dropped :
+/-- The code of this run copies both names into the synthetic case of a bare top-level `<testcase>`. -/
+theorem C26_bare_case_reported (x : XCase) : bareCase C26.bareCaseFields x = x.toCase := by
+  have hf : C26.bareCaseFields = ["ClassName", "Name"] := by decide
+  rw [hf]; simp [bareCase]
+
+/-- Before the repair (`bareCaseFields = []`) such a case kept its outcome but lost its name and class name.
+    (Statement about the OLD fact value.) -/
+theorem C26_old_bare_names_dropped :
     ∃ x : XCase, x.name ≠ "" ∧ (bareCase [] x).name = "" ∧ (bareCase [] x).execs = x.toCase.execs :=
   ⟨⟨"pkg.C", "test_a", true, false, false, 0, 0, 0, 0⟩, by decide, by decide, by decide⟩
 
@@ -219,9 +238,13 @@ theorem C26_witness_bare_names_dropped :
 theorem C26_bare_fixed (x : XCase) : bareCase ["ClassName", "Name"] x = x.toCase := by
   simp [bareCase]
 
-/-- VIOLATED (`go test -v`): a test that was started but has no result line (timeout, os.Exit, crash) is
-    `gtr.Unknown`; the switch has no clause for it and the execution counts as a success. -/
-theorem C26_witness_go_unknown_is_pass :
+/-- `go test -v`: a test that was started but has no result line (timeout, os.Exit, crash) is `gtr.Unknown`;
+    the switch of this run turns it into an error, so it can never count as a success. -/
+theorem C26_go_unfinished_is_error : goExec C26.goSets GoResult.unknown = Exec.err := by decide
+
+/-- Before the repair the switch had no clause for it and the execution counted as a success.
+    (Statement about the OLD fact value.) -/
+theorem C26_old_go_unknown_was_pass :
     (goExec [("Fail", "Failure"), ("Skip", "Skip"), ("Pass", "")] GoResult.unknown).isSuccess = true := by decide
 
 /-- With a clause for it (either `case gtr.Unknown` or `default`) that sets Error, it is an error. -/
